@@ -207,6 +207,19 @@ impl<Fd: AsFd> FdExt for Fd {
             .wrap("symlink file handles cannot be reopened")?
         }
 
+        // The re-open is an open(2) of a magic-link, so creation flags would
+        // not fail -- O_CREAT is silently ignored and O_TMPFILE creates an
+        // anonymous file inside a directory handle. Neither is a "re-open" of
+        // the handle, and the documentation promises an error.
+        if flags.intersects(OpenFlags::O_CREAT | OpenFlags::O_EXCL)
+            || flags.contains(OpenFlags::O_TMPFILE)
+        {
+            Err(ErrorImpl::InvalidArgument {
+                name: "flags".into(),
+                description: "reopen flags cannot contain O_CREAT, O_EXCL or O_TMPFILE".into(),
+            })?
+        }
+
         // Now that we are sure the file descriptor is not a symlink, we can
         // clear O_NOFOLLOW since it is a no-op (but due to the procfs reopening
         // implementation, O_NOFOLLOW will cause strange behaviour).
